@@ -4,7 +4,9 @@
 //	--config : prints $VERIF_CTL_DIR/config/<safe name>.yaml and appends the hook name to config.log
 //	run      : writes exec/<id>.start (hook, contexts, environment, state of the output files), then either waits
 //	           for exec/<id>.go (VERIF_HOOK_MODE=block) or takes the next outcome from plan/<safe name>.json,
-//	           writes the output files and exits with the given code after writing exec/<id>.end.
+//	           writes the output files and exits with the given code after writing exec/<id>.end. A negative
+//	           exit code -N means: after everything is written, terminate by sending signal N to itself
+//	           (9 = SIGKILL, 15 = SIGTERM), as a hook killed from outside would end.
 package main
 
 import (
@@ -14,6 +16,7 @@ import (
 	"path/filepath"
 	"sort"
 	"strings"
+	"syscall"
 	"time"
 )
 
@@ -147,5 +150,10 @@ func main() {
 		fmt.Println(out.Stdout)
 	}
 	writeAtomic(filepath.Join(ctl, "exec", id+".end"), map[string]interface{}{"id": id, "hook": name, "end": time.Now().UnixNano(), "exit": out.Exit})
+	if out.Exit < 0 {
+		syscall.Kill(os.Getpid(), syscall.Signal(-out.Exit))
+		time.Sleep(30 * time.Second) // the signal is delivered asynchronously; never reached for a fatal signal
+		os.Exit(98)
+	}
 	os.Exit(out.Exit)
 }
